@@ -405,6 +405,12 @@ def managed_check(pid, tier, seed):
         "harness_build_s": round(build_s, 1),
     }
     cov.update(extra)
+    taken = set(cov["actions_covered"])
+    missing = [a for a in configs.REQUIRED_ACTIONS.get(pid, []) if a not in taken]
+    cov["required_actions"] = configs.REQUIRED_ACTIONS.get(pid, [])
+    if missing:
+        write_evidence(pid, tier, seed, cov, time.time() - t_start, nviol, ASSUME)
+        raise ToolError("vacuity guard: actions %s of the specification were never taken in any configuration of %s" % (missing, pid))
     write_evidence(pid, tier, seed, cov, time.time() - t_start, nviol, ASSUME)
     # the big tour files are scratch
     for x in infos:
